@@ -58,7 +58,7 @@ def spec_for(side, averaged, stop, tick, unit, L, E):
     return spec
 
 
-def scenario(L, side, averaged, where, dist, stop, kind, mode, fast, emb):
+def scenario(L, side, averaged, where, dist, stop, kind, mode, fast, emb, tp=None):
     """Two-pass: a calibration run on flat candles yields the position's own liquidation/bankruptcy price; the probe candles are
     then placed relative to it."""
     base, _, unit = emb
@@ -100,16 +100,25 @@ def scenario(L, side, averaged, where, dist, stop, kind, mode, fast, emb):
     if where == 'gap-over':
         o = target
         extra.append((o, o, o, o))                       # whole minute beyond the liquidation price: only the normalised open reaches it
+    elif tp:
+        # the probe minute also reaches a partial take-profit on the profit side (closing one tick into profit): a resting
+        # order fills inside the liquidation minute without closing the position
+        up = E + sgn * 3 * tick
+        extra.append((E, E + sgn * tick, max(E, target, up), min(E, target, up)))
     else:
         extra.append((E, E, max(E, target), min(E, target)))
     extra += [(extra[-1][1],) * 4] * 2
+    if tp:
+        spec = dict(spec, on_open={'tp': [[0.5, 2]]})
+        if averaged:
+            spec['on_increased'] = {'tp': [[1, 2 + 1.5]]}
     if stop:
         # protective stop: declared at entry through on_open
         d = (liq + sgn * stop[1] * tick) if stop[0] == 'before' else (liq - sgn * stop[1] * tick)
         d = max(d, tick / 2)
-        spec = dict(spec, on_open={'sl': [[2 if averaged else 1, abs(E - d) / tick]]})
+        spec = dict(spec, on_open=dict(spec.get('on_open') or {}, sl=[[2 if averaged else 1, abs(E - d) / tick]]))
         if averaged:
-            spec['on_increased'] = {'sl': [[2, abs(E - d) / tick]]}
+            spec['on_increased'] = dict(spec.get('on_increased') or {}, sl=[[2, abs(E - d) / tick]])
     case = {'cfg': cfg, 'routes': [{'symbol': 'BTC-USDT', 'timeframe': tf, 'spec': spec}], 'candles': {'BTC-USDT': rows(extra)}, 'fast': fast, 'observe': 0}
     r = S.run_session(case)
     return case, r, (liq, bk)
@@ -183,7 +192,8 @@ def oracle(case, r, isolated):
         if end['liquidations'] != seen:
             probs.append(('liquidation-count', {'sim': sim}, 'total_liquidations %d, force-close fills %d' % (end['liquidations'], seen)))
         for t in end['trades']:
-            if t['orders'] and t['orders'][-1] in liq_orders:
+            exits = [oid for oid in t['orders'] if oid in orders and ((orders[oid]['side'] == 'sell') == (t['type'] == 'long'))]
+            if t['orders'] and t['orders'][-1] in liq_orders and len(exits) == 1:
                 # loses its initial margin plus fees
                 L = case['cfg']['leverage']
                 want = -(t['qty'] * t['entry'] / L) - fee * t['qty'] * (t['entry'] + t['exit'])
@@ -198,10 +208,11 @@ def oracle(case, r, isolated):
 
 
 def _run(args):
-    L, side, averaged, where, dist, stop, kind, mode, fast, emb = args
-    ident = {'leverage': L, 'side': side, 'averaged': averaged, 'where': where, 'dist': dist, 'stop': stop, 'kind': kind, 'mode': mode, 'fast': fast, 'embedding': list(emb)}
+    L, side, averaged, where, dist, stop, kind, mode, fast, emb = args[:10]
+    tp = args[10] if len(args) > 10 else None
+    ident = {'leverage': L, 'side': side, 'averaged': averaged, 'where': where, 'dist': dist, 'stop': stop, 'kind': kind, 'mode': mode, 'fast': fast, 'embedding': list(emb), 'tp': tp}
     out = {'viols': [], 'stats': {}, 'class': ''}
-    case, r, lb = scenario(L, side, averaged, where, dist, stop, kind, mode, fast, emb)
+    case, r, lb = scenario(L, side, averaged, where, dist, stop, kind, mode, fast, emb, tp)
     if r['error']:
         out['viols'].append(Violation('unexpected-exception', {'exc': r['error'][0], 'kind': kind}, ident, '%s: %s' % r['error'][:2]).to_json())
         return out
@@ -227,6 +238,8 @@ def cases(ctx):
                         for stop in (None, ('before', 2), ('beyond', 2)):
                             for fast in (False, True):
                                 yield (L, side, averaged, where, dist, stop, 'futures', 'isolated', fast, emb)
+                                if where != 'gap-over' and stop != ('before', 2) and L > 1:
+                                    yield (L, side, averaged, where, dist, stop, 'futures', 'isolated', fast, emb, 'partial')
     for L in (2, 25):
         for side in ('long', 'short'):
             for where in ('touch', 'cross', 'gap-over'):
@@ -278,5 +291,5 @@ def replay(case, ctx):
     if case.get('formula'):
         emb = ctx.embedding
         return [Violation.from_json(v) for v in _formulas((emb[0], emb[2]))['viols']]
-    a = (case['leverage'], case['side'], case['averaged'], case['where'], case['dist'], tuple(case['stop']) if case['stop'] else None, case['kind'], case['mode'], case['fast'], tuple(case.get('embedding') or ctx.embedding))
+    a = (case['leverage'], case['side'], case['averaged'], case['where'], case['dist'], tuple(case['stop']) if case['stop'] else None, case['kind'], case['mode'], case['fast'], tuple(case.get('embedding') or ctx.embedding), case.get('tp'))
     return [Violation.from_json(v) for v in _run(a)['viols']]
